@@ -4,6 +4,7 @@ Only the documented public API of hypergraph is used (DESIGN.md 2.6)."""
 from __future__ import annotations
 
 import asyncio
+import logging
 import warnings
 
 from hypergraph import END, AsyncRunner, Graph, SyncRunner
@@ -72,6 +73,8 @@ class Runtime:
 
     def call(self, path, args):
         idx, _ = self._enter(path, args)
+        if self.controller is not None and self.nodes[path]["kind"] == "func":
+            self.controller.sync_body(path, idx)      # a synchronous function body executes NOW, next to the parked ones
         self._maybe_fail(path, idx, args)
         self.ends.append(path)
         return self._result(self.nodes[path], args)
@@ -112,8 +115,8 @@ class Runtime:
             return None
         outs = nd["outputs"][: nd["ndata"]]
         if len(outs) == 1:
-            return f"ans.{nd['name']}.{outs[0]}"
-        return {o: f"ans.{nd['name']}.{o}" for o in outs}
+            return IR.pyval(IR.answer_text(nd, 0))
+        return {o: IR.pyval(IR.answer_text(nd, j)) for j, o in enumerate(outs)}
 
 
 def effective_decision(nd, raw):
@@ -229,16 +232,41 @@ def build_node(rt, nd, prefix):
     raise ValueError(kind)
 
 
-def build_graph(rt, p, prefix=""):
+def build_graph(rt, p, prefix="", warm=None):
+    """warm: optional callable(graph) applied to every intermediate graph object of the derivation
+    chain Graph(...) -> .bind -> .select -> .with_entrypoint (a history in which the parent graphs
+    have been used before the derived graph is)."""
     nodes = [build_node(rt, nd, prefix) for nd in p["nodes"]]
     g = Graph(nodes, name=p["name"])
     if p["bound"]:
+        if warm:
+            warm(g)
         g = g.bind(**{k: v for k, v in p["bound"]})
     if p["selected"] != IR.UNSET:
+        if warm:
+            warm(g)
         g = g.select(*p["selected"])
     if p["entry"]:
+        if warm:
+            warm(g)
         g = g.with_entrypoint(*p["entry"])
     return g
+
+
+def warm_runner(rt, values, max_iter):
+    """Runs a parent graph object once (whatever the outcome) and forgets what the bodies logged."""
+    def warm(g):
+        saved = logging.getLogger("hypergraph").level
+        try:
+            logging.getLogger("hypergraph").setLevel(logging.CRITICAL)
+            _ = g.inputs, g.outputs
+            asyncio.run(AsyncRunner().run(g, dict(values), error_handling="continue", max_iterations=max_iter, on_internal_override="ignore"))
+        except BaseException:  # noqa: BLE001 - the parent may well be unrunnable with these values
+            pass
+        finally:
+            logging.getLogger("hypergraph").setLevel(saved)
+            rt.reset()
+    return warm
 
 
 def complete_interfaces(p):
@@ -277,7 +305,8 @@ def _complete(rt, p, prefix):
 def provided_dict(job):
     """Provided values; a value whose text is registered in job['lists'] is passed as a real list."""
     lists = {t: items for t, items in job.get("lists", [])}
-    return {k: (list(lists[v]) if v in lists else v) for k, v in job["provided"]}
+    lit = set(job.get("literal_keys", []))       # keys whose text stands for a python literal (falsy interrupt answers)
+    return {k: (list(lists[v]) if v in lists else IR.pyval(v) if k in lit else v) for k, v in job["provided"]}
 
 
 def run_job(job, *, runner=None, event_processors=None, max_concurrency=None, cache=None, on_missing=None,
@@ -289,7 +318,7 @@ def run_job(job, *, runner=None, event_processors=None, max_concurrency=None, ca
     rt = Runtime(job["prog"])
     with warnings.catch_warnings():
         warnings.simplefilter("ignore")
-        g = build_graph(rt, job["prog"])
+        g = build_graph(rt, job["prog"], warm=warm_runner(rt, provided_dict(job), job["prog"]["max_iter"]) if job.get("warm") else None)
     kwargs = dict(error_handling=error_handling, max_iterations=job["prog"]["max_iter"], on_internal_override="ignore")
     if on_missing is not None:
         kwargs["on_missing"] = on_missing
@@ -348,6 +377,10 @@ def observe(rt, r):
         "calls": _calls(rt),
         "ends": list(rt.ends),
     }
+
+
+def values_of(r):
+    return {k: IR.canon(v) for k, v in r.values.items()}
 
 
 def suggest_inputs(prog, rng=None, optional_p=0.5):
